@@ -131,7 +131,11 @@ theorem uploadPath_snoc (env : Env) (up : Bool) (es : Entries) (k : Name) (v : L
       split
       · exact ⟨by simp, by simp, by simp, by simp⟩
       · exact ⟨by simp, by simp, by simp, by simp⟩
-    | symlink t => exact ⟨by simp, by simp, by simp, by simp⟩
+    | symlink t =>
+      simp only
+      split
+      · exact ⟨by simp, by simp, by simp, by simp⟩
+      · exact ⟨by simp, by simp, by simp, by simp⟩
     | special => exact ⟨by simp, by simp, by simp, by simp⟩
 
 theorem uploadPaths_addPath (env : Env) (up : Bool) (es : Entries) (name : Name) (s : Str)
